@@ -4,6 +4,8 @@ import Xp.Proofs.C17Init
 import Xp.Proofs.C17Ver
 import Xp.Proofs.C17Res
 import Xp.Proofs.C17Env
+import Xp.Proofs.C17Rec
+import Xp.Proofs.C17ResF
 import Xp.Gen.C17Tables
 /-
 C17 property theorems: dependency resolution.
@@ -395,6 +397,236 @@ theorem reconcile_writes_selected (o : Oracle) (upg down : Bool) (lock : List Pk
           | panic => trivial
           | ok v => exact ⟨_, ins, rfl, hinst, ht⟩
 
+/-! ### the lock reconciler next to other clients, behind an informer cache, with failing calls
+
+`Xp/Model/C17Rec.lean`: `reconcileP` is Reconcile call by call (Get of the Lock and List of the
+packages answered by the cache; Update / Status().Update / Create answered by the API server with
+its resourceVersion check; pull-secret lookup and tag fetch), run by `runE` next to an arbitrary
+environment `env` (what other clients, the informer and the registry do right before each call:
+only `RelyW` is asked of it — it keeps resourceVersions coherent and cannot touch the ghost record
+`seen` of what this Reconcile was served) and under every fault plan; any call can moreover come
+back with an error of any class (`inject`, part of the world and set by the environment).
+`ownE` lists the calls the API server applied, each with the world at that moment. `reconcile`
+(above) is the decision taken on what was served; `Guar` says which served data justify a write. -/
+
+/-- the scripts the harness plays (third-party writes, cache syncs, registry changes, injected
+error classes before the k-th call) are environments of the kind quantified over below -/
+theorem rec_scripts_obey_the_rely (acts : List (Nat × WAct)) (k : Nat) (w : RWorld) :
+    RelyW w (scriptEnvW acts k w) := scriptEnvW_rely acts k w
+
+/-- **Every write is justified by what THIS Reconcile was served.** From any coherent world in
+which nothing has been served yet, for every environment, every fault plan and every error
+class on every call: whenever the API server applies a call of the reconciler, the
+resourceVersions are coherent and the guarantee `Guar` holds of the world at that moment — a
+package is created / updated only for the first implied node of a sortable DAG of the Lock
+served by this Reconcile's Get, with the version the selection functions return on the tag list
+served by this Reconcile's fetch, (upgrades) after this Reconcile's List and for the object and
+resourceVersion that List served; the Lock is only ever written back as served. When Reconcile
+returns, at most one package write was applied, and if it returns no error although a Create was
+answered AlreadyExists (`NameOk`), the object that holds the name - as this Reconcile's Get was
+served it - is the package (kind, name) of the first implied dependency's own repository
+(registry and repository): a name taken by a package of another repository is an error. -/
+theorem rec_every_call_justified (cfg : RCfg) (w : RWorld) (hc : Coh w) (hs : w.seen = {})
+    (env : Env RWorld) (henv : ∀ k s, RelyW s (env k s)) (plan : Plan) :
+    (∀ x ∈ ownE recSem env plan 0 (reconcileP cfg) w, Coh x.1 ∧ Guar cfg x.1 x.2) ∧
+    (∀ a, (runE recSem env plan 0 (reconcileP cfg) w).2 = some a →
+      Coh (runE recSem env plan 0 (reconcileP cfg) w).1 ∧
+      (runE recSem env plan 0 (reconcileP cfg) w).1.seen.writes ≤ 1 ∧
+      (a.err = .none → NameOk cfg (runE recSem env plan 0 (reconcileP cfg) w).1.seen)) :=
+  wpE_sound recSem RelyW (GuarC cfg) env henv plan 0 (reconcileP cfg) (RPost cfg) w (reconcileP_wp cfg w hc hs)
+
+/-- the coherence of resourceVersions survives a whole Reconcile, also one that crashes -/
+theorem rec_keeps_coherence (cfg : RCfg) (w : RWorld) (hc : Coh w)
+    (env : Env RWorld) (henv : ∀ k s, RelyW s (env k s)) (plan : Plan) :
+    Coh (runE recSem env plan 0 (reconcileP cfg) w).1 := by
+  have hall : ∀ (p : RProg), Issues (fun _ : Req => True) p := by
+    intro p
+    induction p with
+    | ret a => exact .ret a
+    | call r c ih => exact .call r c trivial ih
+  exact runE_inv recSem Coh (fun _ => True) (fun s r h _ => coh_exec h r) env (fun k s h => (henv k s).2 h)
+    plan 0 (reconcileP cfg) (hall _) w hc
+
+/-- **A cycle (or a Lock whose DAG cannot be built) stops installation, whatever happens around
+the reconciler**: if the API server applied a package create / update of this Reconcile, then
+the Lock its Get was served has a DAG that could be built and (no node having the empty
+identifier) no dependency cycle. -/
+theorem rec_broken_graph_writes_nothing (cfg : RCfg) (w : RWorld) (hc : Coh w) (hs : w.seen = {})
+    (env : Env RWorld) (henv : ∀ k s, RelyW s (env k s)) (plan : Plan)
+    (x : RWorld × Req) (hx : x ∈ ownE recSem env plan 0 (reconcileP cfg) w) (hw : x.2.isPkgWrite = true) :
+    ∃ l d imp, x.1.seen.lock = some l ∧ init cfg.o cfg.upg l.pkgs = .ok (d, imp) ∧
+      (lockNb l.pkgs "" = none → ¬ HasCycle (lockNb l.pkgs)) := by
+  have hg := ((rec_every_call_justified cfg w hc hs env henv plan).1 x hx).2
+  have key : ∀ d dep, ServedDep cfg x.1.seen d dep → ∃ l d imp, x.1.seen.lock = some l ∧
+      init cfg.o cfg.upg l.pkgs = .ok (d, imp) ∧ (lockNb l.pkgs "" = none → ¬ HasCycle (lockNb l.pkgs)) := by
+    rintro d dep ⟨l, rest, hl, hi, res, hsort⟩
+    refine ⟨l, d, dep :: rest, hl, hi, fun hne hcyc => ?_⟩
+    have hord : ∀ n, n ∈ d.keys ↔ (lockNb l.pkgs n).isSome = true := by
+      intro n; rw [← (init_spec hi).1 n]; exact (d.nb_isSome_iff n).symm
+    obtain ⟨e, he⟩ := ((sort_ok_iff_acyclic hi d.keys hord hne).1).2 hcyc
+    rw [hsort] at he; cases he
+  cases hr : x.2 with
+  | createPkg kind name image =>
+    rw [hr] at hg; unfold Guar at hg
+    obtain ⟨_, d, dep, _, _, hsd, _⟩ := hg
+    exact key d dep hsd
+  | updatePkg kind name image rv =>
+    rw [hr] at hg; unfold Guar at hg
+    obtain ⟨_, _, d, dep, _, _, _, _, _, hsd, _⟩ := hg
+    exact key d dep hsd
+  | getLock => rw [hr] at hw; cases hw
+  | updateLock _ _ _ => rw [hr] at hw; cases hw
+  | statusLock _ _ => rw [hr] at hw; cases hw
+  | listPkgs _ => rw [hr] at hw; cases hw
+  | pullSecret _ => rw [hr] at hw; cases hw
+  | tags _ => rw [hr] at hw; cases hw
+  | getPkg _ _ => rw [hr] at hw; cases hw
+
+/-- **The quiet decision skeleton is the special case**: a justified package write is exactly the
+write `reconcile` (the model of the sixteen theorems above) decides on the data this Reconcile
+was served — the Lock of its Get, the installed version in the list of its List, the tag list
+of its fetch. So `install_max`, `update_min_not_older_or_max_older`, `cycle_blocks_install`
+and `reconcile_writes_selected` speak about every write under interference, cache lag and
+failing calls. -/
+theorem rec_write_is_skeleton_decision (cfg : RCfg) (s : RWorld) :
+    (∀ kind name image, Guar cfg s (.createPkg kind name image) →
+      ∃ (l : LockObj) (d : Dag) (dep : Dep) (ref : RefInfo) (v : String), s.seen.lock = some l ∧ cfg.refOf dep.pkg = some ref ∧ image = fmtImage ref.str v ∧
+        kind = cfg.kindOf dep.pkg ∧ name = ref.pkgName ∧
+        reconcile cfg.o cfg.upg cfg.down l.pkgs d.keys (servedInstalled cfg s.seen) (fun _ => s.seen.tags)
+          = ⟨.create dep.pkg v, .none, some true⟩) ∧
+    (∀ kind name image rv, Guar cfg s (.updatePkg kind name image rv) →
+      ∃ (l : LockObj) (d : Dag) (dep : Dep) (ref : RefInfo) (v : String) (ps : List PkgObj) (p : PkgObj) (pref : RefInfo), s.seen.lock = some l ∧ cfg.refOf dep.pkg = some ref ∧ image = fmtImage ref.str v ∧
+        s.seen.pkgs = some ps ∧ p ∈ ps ∧ p.image.bind cfg.refOf = some pref ∧ pref.repo = ref.repo ∧
+        kind = p.kind ∧ name = p.name ∧ rv = p.rv ∧
+        reconcile cfg.o cfg.upg cfg.down l.pkgs d.keys (servedInstalled cfg s.seen) (fun _ => s.seen.tags)
+          = ⟨.update dep.pkg v, .none, some true⟩) := by
+  constructor
+  · intro kind name image hg
+    unfold Guar at hg
+    obtain ⟨_, d, dep, ref, v, ⟨l, rest, hl, hi, res, hsort⟩, href, hk, hn, himg, hv0, hv, hu⟩ := hg
+    refine ⟨l, d, dep, ref, v, hl, href, himg, hk, hn, ?_⟩
+    have hinst : (if cfg.upg = true then servedInstalled cfg s.seen dep.pkg else none) = none := by
+      by_cases hupg : cfg.upg = true
+      · obtain ⟨ps, hps, hm⟩ := hu hupg
+        simp [hupg, servedInstalled, href, hps, hm]
+      · simp [hupg]
+    unfold reconcile
+    simp only [hi, hsort, hinst, hv, hv0, if_false]
+  · intro kind name image rv hg
+    unfold Guar at hg
+    obtain ⟨_, hupg, d, dep, ref, ps, p, pref, v, ⟨l, rest, hl, hi, res, hsort⟩, href, hps, hm, hk, hn, hrv, himg, hv⟩ := hg
+    have hspec : p ∈ ps ∧ p.image.bind cfg.refOf = some pref ∧ pref.repo = ref.repo := by
+      rcases lastMatch_spec cfg.refOf ref.repo ps none p pref hm with h | h
+      · cases h
+      · exact h
+    refine ⟨l, d, dep, ref, v, ps, p, pref, hl, href, himg, hps, hspec.1, hspec.2.1, hspec.2.2, hk, hn, hrv, ?_⟩
+    have hinst : (if cfg.upg = true then servedInstalled cfg s.seen dep.pkg else none) = some pref.ident := by
+      simp [hupg, servedInstalled, href, hps, hm]
+    unfold reconcile
+    unfold parentsOf at hv
+    simp only [hi, hsort, hinst, hv]
+
+/-- **No write based on a stale read lands.** If the API server accepted the reconciler's Update
+of a package, then the object stored at that moment IS the object this Reconcile's List served
+(same spec.package, so the installed version the selection started from is the version
+installed at the moment of the write): an older cached copy, a package changed or re-created by
+somebody else between the List and the Update make the Update fail instead. -/
+theorem rec_update_lands_on_what_was_served (cfg : RCfg) (w : RWorld) (hc : Coh w) (hs : w.seen = {})
+    (env : Env RWorld) (henv : ∀ k s, RelyW s (env k s)) (plan : Plan)
+    (x : RWorld × Req) (hx : x ∈ ownE recSem env plan 0 (reconcileP cfg) w)
+    (kind name image : String) (rv : Nat) (hr : x.2 = .updatePkg kind name image rv)
+    (rv' : Nat) (hok : (execRec x.1 x.2).2 = .ok rv') :
+    ∃ ps p, x.1.seen.pkgs = some ps ∧ p ∈ ps ∧ x.1.pkgs.find? (sameKey kind name) = some p := by
+  obtain ⟨hcx, hg⟩ := (rec_every_call_justified cfg w hc hs env henv plan).1 x hx
+  rw [hr] at hg hok
+  unfold Guar at hg
+  obtain ⟨_, _, d, dep, ref, ps, p, pref, v, _, _, hps, hm, hk, hn, hrv, _, _⟩ := hg
+  have hp : p ∈ ps := by
+    rcases lastMatch_spec cfg.refOf ref.repo ps none p pref hm with h | h
+    · cases h
+    · exact h.1
+  refine ⟨ps, p, hps, hp, ?_⟩
+  unfold execRec at hok
+  cases hi : x.1.inject with
+  | some e => rw [hi] at hok; cases hok
+  | none =>
+    rw [hi] at hok
+    simp only [] at hok
+    cases hf : x.1.pkgs.find? (sameKey kind name) with
+    | none => rw [hf] at hok; cases hok
+    | some q =>
+      rw [hf] at hok
+      simp only [] at hok
+      by_cases hq : q.rv ≠ rv
+      · rw [if_pos hq] at hok; cases hok
+      · have hq' : q.rv = rv := Decidable.not_not.mp hq
+        have : p = q := hcx.seenPkgEq ps hps p hp q (List.mem_of_find?_eq_some hf) (by rw [hq', hrv])
+        rw [this]
+
+/-- **The resolver never modifies the Lock's packages**: whatever the cache served and whatever
+the others did, no call of the reconciler the API server applies changes the packages stored in
+the Lock (its Update of the finalizer writes the packages back only when nobody wrote the Lock
+since it was read; its status updates do not carry packages). -/
+theorem rec_never_changes_lock_packages (cfg : RCfg) (w : RWorld) (hc : Coh w) (hs : w.seen = {})
+    (env : Env RWorld) (henv : ∀ k s, RelyW s (env k s)) (plan : Plan)
+    (x : RWorld × Req) (hx : x ∈ ownE recSem env plan 0 (reconcileP cfg) w) :
+    (execRec x.1 x.2).1.lock.map (·.pkgs) = x.1.lock.map (·.pkgs) := by
+  obtain ⟨hcx, hg⟩ := (rec_every_call_justified cfg w hc hs env henv plan).1 x hx
+  cases hi : x.1.inject with
+  | some e => rw [exec_inject hi]
+  | none =>
+    cases hr : x.2 with
+    | getLock => unfold execRec; rw [hi]; simp only []; cases x.1.clock <;> rfl
+    | listPkgs k => unfold execRec; rw [hi]
+    | pullSecret r => unfold execRec; rw [hi]
+    | tags r => unfold execRec; rw [hi]; simp only []; cases lookupTags r x.1.tags <;> rfl
+    | getPkg k n => unfold execRec; rw [hi]; simp only []; cases x.1.cpkgs.find? (sameKey k n) <;> rfl
+    | createPkg k n i =>
+      unfold execRec; rw [hi]; simp only []
+      by_cases h : x.1.pkgs.any (sameKey k n) = true <;> simp [h]
+    | updatePkg k n i rv =>
+      unfold execRec; rw [hi]; simp only []
+      cases x.1.pkgs.find? (sameKey k n) with
+      | none => rfl
+      | some q => by_cases h : q.rv ≠ rv <;> simp [h]
+    | statusLock c rv =>
+      cases hlive : x.1.lock with
+      | none => simp [execRec, hi, hlive]
+      | some l => by_cases h : l.rv ≠ rv <;> simp [execRec, hi, hlive, h]
+    | updateLock pkgs fin rv =>
+      rw [hr] at hg
+      unfold Guar at hg
+      obtain ⟨l, hl, hp, hrv, _⟩ := hg
+      cases hlive : x.1.lock with
+      | none => simp [execRec, hi, hlive]
+      | some l' =>
+        by_cases h : l'.rv ≠ rv
+        · simp [execRec, hi, hlive, h]
+        · have h' : l'.rv = rv := Decidable.not_not.mp h
+          have : l = l' := hcx.seenLockEq l l' hl hlive (by rw [h', hrv])
+          simp [execRec, hi, hlive, h', hp, this]
+
+/-- **The long-lived reconciler carries nothing from one Reconcile to the next**: in every
+sequence of Reconciles of the one reconciler (each next to its own environment and fault plan,
+each on the world its predecessors and the others left behind), every call the API server applies
+is justified by what was served to the Reconcile that issues it (`fresh`: the ghost record starts
+empty in every Reconcile) — not by a Lock, a package list or a tag list served earlier. -/
+theorem rec_sequence_every_call_justified (cfg : RCfg) (steps : List (Env RWorld × Plan))
+    (henv : ∀ st ∈ steps, ∀ k s, RelyW s (st.1 k s)) (w : RWorld) (hc : Coh w) :
+    ∀ x ∈ ownSteps cfg steps w, Coh x.1 ∧ Guar cfg x.1 x.2 := by
+  induction steps generalizing w with
+  | nil => intro x hx; cases hx
+  | cons st rest ih =>
+    obtain ⟨env, plan⟩ := st
+    have he : ∀ k s, RelyW s (env k s) := henv (env, plan) (List.mem_cons_self ..)
+    have hfresh : Coh w.fresh := hc.fresh
+    intro x hx
+    unfold ownSteps at hx
+    rcases List.mem_append.mp hx with hx | hx
+    · exact (rec_every_call_justified cfg w.fresh hfresh rfl env he plan).1 x hx
+    · exact ih (fun st hst => henv st (List.mem_cons_of_mem _ hst)) _
+        (rec_keeps_coherence cfg w.fresh hfresh env he plan) x hx
+
 /-! ### Resolve: "dependencies satisfied" is sound -/
 
 /-- PackageDependencyManager.Resolve (as repaired by fixes/D21.diff) returns no error for an
@@ -685,5 +917,157 @@ Get, an unrelated package added before the refreshing Get -/
 example : (resolveI false wOracle true rLock iSelf
     { rmGet := some rLock, refresh := some [⟨"pb", "b", "2.0.1", [], false⟩, ⟨"pz", "z", "2.0.1", [], false⟩] }).err = .none := by decide
 example : (reconcile o0 false false cyc ["x", "c", "b", "a"] (fun _ => none) (fun _ => some [])).act = .nothing := by decide
+
+end Xp.C17
+
+/-! ### a moved revision does not leave its old entry behind -/
+namespace Xp.C17
+
+/-- Without other writers and unless the DAG cannot be built, every entry of the Lock that carries
+the revision's name after Resolve is recorded under the revision's source: the entry from before
+the revision moved to another repository is gone (other revisions' dependencies on the old
+source are then reported missing, not counted as present). -/
+theorem moved_entry_is_removed (o : Oracle) (upg : Bool) (lock : List Pkg) (self : Pkg) (wf : LockWF lock self)
+    (h : (resolve o upg lock self).err ≠ .initDag) :
+    ∀ p ∈ (resolve o upg lock self).lock, p.name = self.name → p.source = self.source := by
+  obtain ⟨lock1, hl1, hcase⟩ := resolveG_lock o upg lock self
+  rcases hcase with ⟨he, _⟩ | hlock
+  · exact absurd he h
+  · have key : ∀ q ∈ lock1, q.name = self.name → q.source = self.source := by
+      intro q hq hqn
+      subst hl1
+      by_cases hm : lock.any (movedEntry self) = true
+      · rw [if_pos hm] at hq
+        exact absurd hqn (removeSelf_name lock self.name wf.names q hq)
+      · rw [if_neg hm] at hq
+        have hq' : movedEntry self q = false := by
+          cases hx : movedEntry self q with
+          | false => rfl
+          | true => exact absurd (List.any_eq_true.2 ⟨q, hq, hx⟩) hm
+        have ht := wf.untyped q hq hqn
+        unfold movedEntry at hq'
+        simp [hqn, ht] at hq'
+        exact hq'
+    intro p hp hn
+    have hp' : p ∈ (if lock1.any (fun lp => lp.name == self.name) then lock1 else lock1 ++ [self]) := by
+      rw [← hlock]; exact hp
+    split at hp'
+    · exact key p hp' hn
+    · rcases List.mem_append.mp hp' with hp' | hp'
+      · exact key p hp' hn
+      · simp at hp'; rw [hp']
+
+end Xp.C17
+
+/-! ### Resolve: a missing Lock, a failing call (every error class on every call) -/
+namespace Xp.C17
+
+/-- With a Lock and no failing call `resolveF` is `resolveI`: the theorems on Resolve above are
+the fault-free special case. -/
+theorem resolveF_without_faults (o : Oracle) (upg : Bool) (lock : List Pkg) (self : Pkg) (env : Interf) :
+    resolveF o upg (some lock) self env none = (resolveI false o upg lock self env).lift := by
+  unfold resolveF
+  simp only [failAt_none]
+  exact restF_nofault ..
+
+/-- No Lock object: Resolve creates it and goes on exactly as on a Lock without packages. -/
+theorem absent_lock_is_the_empty_lock (o : Oracle) (upg : Bool) (self : Pkg) (env : Interf) :
+    resolveF o upg none self env none = (resolveI false o upg [] self env).lift := by
+  unfold resolveF
+  simp only [failAt_none]
+  exact restF_nofault ..
+
+/-- **Satisfied is sound whichever call fails with whichever class** (and next to the other
+writers, and with or without a Lock to begin with): Resolve returns no error only if, in the
+Lock as stored when it returns, the revision is recorded with its dependencies, every direct
+dependency is a lock package at an admitted version and every reachable package is a lock
+package — provided every lock content one of its Gets may have returned holds only the
+revision's own entries under its name / source (`OwnEntry`; `readsF` lists them: the Lock as first
+read, and what the refreshing Get returns after RemoveSelf did / did not remove an entry). In
+particular no error class is mistaken for success: a failed Create, RemoveSelf or Update never
+leads to "satisfied". -/
+theorem satisfied_sound_with_failing_calls (o : Oracle) (upg : Bool) (lock : Option (List Pkg)) (self : Pkg)
+    (env : Interf) (f : Option Fault) (hown : ∀ l1 ∈ readsF lock self env, OwnEntry l1 self)
+    (h : (resolveF o upg lock self env f).err = .res .none) :
+    ∃ L, (resolveF o upg lock self env f).lock = some L ∧
+      lockNb L self.source = some (self.deps.map (·.pkg)) ∧
+      (∀ e ∈ self.deps, ∃ p ∈ L, p.source = e.pkg ∧ VersionOk o e p.version) ∧
+      (∀ m, Reach (lockNb L) self.source m → m ∈ L.map (·.source)) := by
+  obtain ⟨l1, d, imp, hmem, hi, he⟩ := resolveF_ok h
+  rw [he] at h ⊢
+  have h' : (resolveTail o upg self l1 d imp).err = .none := by
+    simpa [ResOut.lift] using h
+  exact ⟨_, rfl, resolveTail_sound o upg self l1 d imp hi (hown l1 hmem) h'⟩
+
+/-- every error class on the first Get but NotFound is "cannot get or create lock"; NotFound while
+the Lock exists ends in AlreadyExists from the Create -/
+example (o : Oracle) (upg : Bool) (lock : List Pkg) (self : Pkg) (env : Interf) (c : ErrClass) :
+    (resolveF o upg (some lock) self env (some ⟨0, c⟩)).err = .getOrCreate (if c = .notFound then .alreadyExists else c) := by
+  cases c <;> rfl
+
+end Xp.C17
+
+/-! ### the lock reconciler's world: non-vacuity and witnesses -/
+namespace Xp.C17
+
+/-- digests only: package a depends on b pinned to the digest "sha256:d" -/
+def oD : Oracle := ⟨fun _ => none, fun _ => false, fun _ _ => false, fun c => if c == "sha256:d" then some "sha256:d" else none⟩
+def cfgD (upg : Bool) : RCfg :=
+  { o := oD, refOf := fun s => if s == "b" then some ⟨"r/b", "latest", "b", "b"⟩
+                               else if s == "b@sha256:old" then some ⟨"r/b", "sha256:old", "b@sha256:old", "b"⟩ else none,
+    kindOf := fun _ => "Provider", upg := upg, down := false }
+def lockD : LockObj := ⟨[⟨"pa", "a", "1.0.0", [⟨"b", "sha256:d"⟩], false⟩], true, none, 1⟩
+/-- quiet: the Lock cached as stored, b not installed -/
+def wq : RWorld := { lock := some lockD, clock := some lockD, next := 2 }
+def bLive : PkgObj := ⟨"Provider", "b", some "b@sha256:old", 5⟩
+def bOld : PkgObj := ⟨"Provider", "b", some "b@sha256:old", 3⟩
+/-- b installed; the cache still holds an older copy of it -/
+def wStale : RWorld := { lock := some lockD, clock := some lockD, pkgs := [bLive], cpkgs := [bOld], next := 6 }
+def wFresh : RWorld := { lock := some lockD, clock := some lockD, pkgs := [bLive], cpkgs := [bLive], next := 6 }
+
+example : Coh wq ∧ wq.seen = {} := ⟨by constructor <;> simp [wq, lockD], rfl⟩
+example : Coh wStale ∧ wStale.seen = {} := ⟨by constructor <;> simp [wStale, lockD, bLive, bOld], rfl⟩
+example : Coh wFresh ∧ wFresh.seen = {} := ⟨by constructor <;> simp [wFresh, lockD, bLive], rfl⟩
+
+/-- quiet world: the missing dependency is created, one write, no error -/
+example : (runE recSem Env.none Plan.allOk 0 (reconcileP (cfgD false)) wq).1.pkgs.map (·.name) = ["b"] ∧
+    (runE recSem Env.none Plan.allOk 0 (reconcileP (cfgD false)) wq).1.seen.writes = 1 ∧
+    (runE recSem Env.none Plan.allOk 0 (reconcileP (cfgD false)) wq).2 = some ⟨.none, false⟩ := by decide
+
+/-- upgrades on, cache up to date: the installed b is moved to the pinned digest -/
+example : (runE recSem Env.none Plan.allOk 0 (reconcileP (cfgD true)) wFresh).1.pkgs.map (·.rv) = [6] ∧
+    (runE recSem Env.none Plan.allOk 0 (reconcileP (cfgD true)) wFresh).2 = some ⟨.none, false⟩ := by decide
+
+/-- `rec_update_lands_on_what_was_served` at work, cache lag: the List serves an older copy of b;
+the Update computed from it is refused (Conflict), b stays as stored -/
+theorem rec_stale_cached_package_update_is_refused_witness :
+    (runE recSem Env.none Plan.allOk 0 (reconcileP (cfgD true)) wStale).1.pkgs = [bLive] ∧
+    (runE recSem Env.none Plan.allOk 0 (reconcileP (cfgD true)) wStale).2 = some ⟨.update .conflict, false⟩ := by decide
+
+/-- ... and interference: somebody changes b between the reconciler's List (call 1) and its Update
+(call 2); the Update is refused, the other writer's b stays -/
+theorem rec_package_changed_between_list_and_update_is_refused_witness :
+    (runE recSem (scriptEnvW [(2, .setPkg "Provider" "b" (some "b@sha256:other"))]) Plan.allOk 0 (reconcileP (cfgD true)) wFresh).1.pkgs
+      = [⟨"Provider", "b", some "b@sha256:other", 6⟩] ∧
+    (runE recSem (scriptEnvW [(2, .setPkg "Provider" "b" (some "b@sha256:other"))]) Plan.allOk 0 (reconcileP (cfgD true)) wFresh).2
+      = some ⟨.update .conflict, false⟩ := by decide
+
+/-- the name b is taken by a package of another repository (r/other): the dependency is not
+installed and Reconcile says so (`createTaken`), it does not report success -/
+def bOther : PkgObj := ⟨"Provider", "b", some "b@sha256:old", 5⟩
+def cfgOther : RCfg := { cfgD false with refOf := fun s => if s == "b" then some ⟨"r/b", "latest", "b", "b"⟩
+                                                  else if s == "b@sha256:old" then some ⟨"r/other", "sha256:old", "b@sha256:old", "b"⟩ else none }
+def wTaken : RWorld := { lock := some lockD, clock := some lockD, pkgs := [bOther], cpkgs := [bOther], next := 6 }
+
+theorem rec_name_taken_by_another_repository_is_an_error_witness :
+    (runE recSem Env.none Plan.allOk 0 (reconcileP cfgOther) wTaken).2 = some ⟨.createTaken, false⟩ ∧
+    (runE recSem Env.none Plan.allOk 0 (reconcileP cfgOther) wTaken).1.pkgs = [bOther] ∧
+    -- ... whereas a package of the dependency's own repository under that name is fine
+    (runE recSem Env.none Plan.allOk 0 (reconcileP (cfgD false)) wTaken).2 = some ⟨.none, false⟩ := by decide
+
+/-- every error class on the Get of the Lock but NotFound is returned; NotFound is not an error -/
+example : ∀ e : ErrClass, (runE recSem (scriptEnvW [(0, .err e)]) Plan.allOk 0 (reconcileP (cfgD false)) wq).2
+    = some ⟨if e = .notFound then .none else .getLock e, false⟩ := by
+  intro e; cases e <;> decide
 
 end Xp.C17
